@@ -345,7 +345,8 @@ class IncidentObserver(Referenceable):
         statefile = self.basedir.child("latest").path
         latest = ""
         try:
-            latest = open(statefile, "r").read().strip()
+            if not os.path.islink(statefile):
+                latest = open(statefile, "r").read().strip()
         except EnvironmentError:
             pass
         print("connected to %s, last known incident is %s" \
